@@ -229,6 +229,12 @@ func (m *ClientConfig) GetTlsConfig() (conf *tls.Config, err error) {
 	return
 }
 
+// ClientCertRequired tells if clients must authenticate with a certificate. It does not depend on the certificates
+// being loadable.
+func (m *ServerConfig) ClientCertRequired() bool {
+	return m.RequireClientCert
+}
+
 func (m *ServerConfig) GetTlsConfig() (conf *tls.Config, err error) {
 	log.Debug("ServerConfig.GetTlsConfig()")
 	conf, err = m.Config.GetTlsConfig()
